@@ -94,7 +94,7 @@ func loadContracts(dir string) (*ContractSet, error) {
 		if info.IsDir() && (info.Name() == ".git" || info.Name() == "node_modules") {
 			return filepath.SkipDir
 		}
-		if !info.IsDir() && info.Name() == "contracts_verif.go" {
+		if !info.IsDir() && strings.HasPrefix(info.Name(), "contracts_verif") && strings.HasSuffix(info.Name(), ".go") {
 			files = append(files, p)
 		}
 		return nil
